@@ -42,7 +42,7 @@ def money(lo=1, hi=200000):
 
 
 @st.composite
-def ledgers(draw, max_txns=10, with_pad=True, with_extras=True, min_txns=1):
+def ledgers(draw, max_txns=10, with_pad=True, with_extras=True, min_txns=1, many_extras=False):
     accounts = list(BASE_ACCOUNTS)
     desc = {'title': 'generated', 'commodities': [], 'accounts': [], 'directives': []}
     for cur in CASH + STOCKS:
@@ -164,6 +164,27 @@ def ledgers(draw, max_txns=10, with_pad=True, with_extras=True, min_txns=1):
                                                                  'BALANCES', 'SELECT account FROM year = 2019']))})
             else:
                 directives.append({'kind': 'custom', 'date': edate, 'type': 'budget', 'values': ['Expenses:Food', D('10.00')]})
+    if many_extras:
+        # several notes / events / documents / prices with crossing values, so that the typed tables
+        # have rows on which columns of one datatype order and partition differently
+        for j in range(draw(st.integers(3, 8))):
+            edate = START + datetime.timedelta(days=draw(st.integers(0, 120)))
+            ekind = draw(st.sampled_from(['note', 'note', 'event', 'event', 'document', 'price']))
+            acct = draw(st.sampled_from(['Assets:Cash', 'Expenses:Food', 'Income:Job', 'Assets:Broker']))
+            if ekind == 'note':
+                directives.append({'kind': 'note', 'date': edate, 'account': acct,
+                                   'comment': draw(st.sampled_from(['zz', 'aa', 'mm', 'Assets:Cash'])), 'meta': {}})
+            elif ekind == 'event':
+                directives.append({'kind': 'event', 'date': edate, 'type': draw(st.sampled_from(['location', 'job', 'zip'])),
+                                   'description': draw(st.sampled_from(['Paris', 'NYC', 'Acme', 'job']))})
+            elif ekind == 'document':
+                directives.append({'kind': 'document', 'date': edate, 'account': acct,
+                                   'filename': draw(st.sampled_from(['/etc/hostname', '/etc/passwd', '/etc/hosts']))})
+            else:
+                directives.append({'kind': 'price', 'date': edate, 'currency': draw(st.sampled_from(STOCKS + ['EUR'])),
+                                   'amount': (draw(money(50, 60000)), 'USD'), 'meta': {}})
+        directives.sort(key=lambda d: d['date'])
+        date = max(date, max(d['date'] for d in directives))
     desc['end'] = date
     for a in desc['accounts']:
         if a['name'] in closed and a['name'] not in used:
